@@ -363,6 +363,19 @@ func runC08(c *Check) {
 				}
 			}
 		}
+		// flat form `if err == ErrNotPushOp {…} else if err != nil {…}`: the malformed outcome is the
+		// non-nil edge of the nil test that follows the inequality
+		if otherSucc != nil {
+			if iff2, ok := lastIf(otherSucc); ok && len(otherSucc.Instrs) == 1+countValueInstrs(otherSucc) {
+				for k := 0; k < 2; k++ {
+					if errNilEdge(sameCall(call), false)(iff2, k) {
+						okSucc = otherSucc.Succs[1-k]
+						otherSucc = otherSucc.Succs[k]
+						break
+					}
+				}
+			}
+		}
 		if nonNilSucc == nil || notPushSucc == nil {
 			c.Bad("R1", key+"#outcomes-distinguished", call.Pos(), "outcome automaton", nil,
 				"the parser's outcomes are not distinguished (err != nil, err == ErrNotPushOp): a non-push opcode must be skipped and a malformed script must stop the walk")
@@ -376,17 +389,15 @@ func runC08(c *Check) {
 		okStop := !body[otherSucc] || leavesOnly(otherSucc, body)
 		answersTrue := false
 		discards := false
-		seen := map[*ssa.BasicBlock]bool{}
-		q := []*ssa.BasicBlock{otherSucc}
-		for len(q) > 0 {
-			x := q[0]
-			q = q[1:]
-			if seen[x] || x == call.Block() {
-				continue
+		nVisited := 0
+		explore(entryNodesVia(otherSucc), func(n walkNode) bool {
+			x := n.b
+			if x == call.Block() {
+				return false
 			}
-			seen[x] = true
+			nVisited++
 			if x == h {
-				continue
+				return false
 			}
 			if ret, ok := x.Instrs[len(x.Instrs)-1].(*ssa.Return); ok && onlyViaError(x, otherSucc, body) {
 				for _, v := range resultValues(ret, 0) {
@@ -399,10 +410,37 @@ func runC08(c *Check) {
 					}
 				}
 			}
-			if body[x] || !body[otherSucc] && len(seen) < 12 {
-				q = append(q, x.Succs...)
+			// the same defect after the collecting helper was expanded in place: on the failure path
+			// the merged "collected so far" value is nil although another path delivers the accumulator
+			if n.pred != nil {
+				if pi := predIndex(n.pred, x); pi >= 0 {
+					for _, in := range x.Instrs {
+						phi, isPhi := in.(*ssa.Phi)
+						if !isPhi {
+							break
+						}
+						if _, isSl := phi.Type().Underlying().(*types.Slice); !isSl || pi >= len(phi.Edges) {
+							continue
+						}
+						cst, isC := phi.Edges[pi].(*ssa.Const)
+						if !isC || !cst.IsNil() {
+							continue
+						}
+						for j, e := range phi.Edges {
+							if j == pi {
+								continue
+							}
+							for _, r := range rootsAll(e) {
+								if call, ok := r.(*ssa.Call); ok && builtinCall(call, "append") != nil {
+									discards = true
+								}
+							}
+						}
+					}
+				}
 			}
-		}
+			return body[x] || !body[otherSucc] && nVisited < 12
+		})
 		c.Decide(okStop && !answersTrue, "R1", key+"#malformed-script-stops-walk", call.Pos(), "outcome automaton", nil,
 			"any other parse error ends this script's walk without a match", "a malformed script does not end the walk of that script (possible endless loop) or answers 'relevant'")
 		c.Decide(!discards, "R1", key+"#pushes-before-malformation-kept", call.Pos(), "outcome automaton", nil,
@@ -460,14 +498,7 @@ func runC08(c *Check) {
 					return false
 				}, true)(iff, br) {
 					nCmp++
-					okTrue := false
-					if ret, ok := b.Succs[br].Instrs[len(b.Succs[br].Instrs)-1].(*ssa.Return); ok {
-						for _, v := range resultValues(ret, 0) {
-							if bb, isC := isConstBool(v); isC && bb {
-								okTrue = true
-							}
-						}
-					}
+					okTrue := leadsToBoolReturn(b, b.Succs[br], true)
 					inHashLoop := false
 					if lh := loopHeaderOf(b); lh != nil {
 						if rs := rangedSlice(lh); rs != nil && loadOfField(rs, fHashes) != nil {
@@ -731,25 +762,15 @@ func canonOKShape(fn *ssa.Function) bool {
 
 // leavesBeforeHeader: from b control cannot get back to loop header h while staying inside the loop.
 func leavesBeforeHeader(b, h *ssa.BasicBlock, body map[*ssa.BasicBlock]bool) bool {
-	seen := map[*ssa.BasicBlock]bool{}
-	q := []*ssa.BasicBlock{}
-	q = append(q, b.Succs...)
-	for len(q) > 0 {
-		x := q[0]
-		q = q[1:]
-		if seen[x] {
-			continue
-		}
-		seen[x] = true
-		if x == h {
+	back := false
+	explore(succNodes(b), func(n walkNode) bool {
+		if n.b == h {
+			back = true
 			return false
 		}
-		if !body[x] {
-			continue
-		}
-		q = append(q, x.Succs...)
-	}
-	return true
+		return body[n.b]
+	})
+	return !back
 }
 
 // onlyViaError: return block x is reached from the error successor without going through the loop
@@ -758,24 +779,39 @@ func onlyViaError(x, errSucc *ssa.BasicBlock, body map[*ssa.BasicBlock]bool) boo
 	if x == errSucc {
 		return true
 	}
-	seen := map[*ssa.BasicBlock]bool{}
-	q := []*ssa.BasicBlock{errSucc}
-	for len(q) > 0 {
-		b := q[0]
-		q = q[1:]
-		if seen[b] {
-			continue
+	found := false
+	explore(entryNodesVia(errSucc), func(n walkNode) bool {
+		if n.b == x {
+			found = true
+			return false
 		}
-		seen[b] = true
-		if b == x {
-			return true
+		if n.b != errSucc && loopBody(n.b) != nil {
+			return false // a loop header: a new iteration starts here
 		}
-		if loopBody(b) != nil {
-			continue // a loop header: a new iteration starts here
-		}
-		q = append(q, b.Succs...)
+		return true
+	})
+	return found
+}
+
+// entryNodesVia: errSucc entered over the edges that carry the failed outcome. The callers only know
+// the block; where it has a single predecessor the edge is known, otherwise no edge is assumed.
+func entryNodesVia(b *ssa.BasicBlock) []walkNode {
+	if len(b.Preds) == 1 {
+		return []walkNode{mkNode(b.Preds[0], b)}
 	}
-	return false
+	return []walkNode{{b: b}}
+}
+
+// countValueInstrs: the instructions of b that only compute the branch condition (no effects).
+func countValueInstrs(b *ssa.BasicBlock) int {
+	n := 0
+	for _, in := range b.Instrs {
+		switch in.(type) {
+		case *ssa.BinOp, *ssa.UnOp, *ssa.ChangeInterface, *ssa.MakeInterface, *ssa.Extract, *ssa.Phi, *ssa.TypeAssert:
+			n++
+		}
+	}
+	return n
 }
 
 func functionAppends(f *ssa.Function) bool {
@@ -791,43 +827,34 @@ func functionAppends(f *ssa.Function) bool {
 
 // leavesLoopBefore: from `from`, control can leave the loop body before reaching `to`.
 func leavesLoopBefore(from, to *ssa.BasicBlock, body map[*ssa.BasicBlock]bool) bool {
-	seen := map[*ssa.BasicBlock]bool{}
-	q := []*ssa.BasicBlock{from}
-	for len(q) > 0 {
-		x := q[0]
-		q = q[1:]
-		if seen[x] || x == to {
-			continue
+	leaves := false
+	explore(entryNodesVia(from), func(n walkNode) bool {
+		if n.b == to {
+			return false
 		}
-		seen[x] = true
-		if !body[x] {
-			return true
+		if !body[n.b] {
+			leaves = true
+			return false
 		}
-		q = append(q, x.Succs...)
-	}
-	return false
+		return true
+	})
+	return leaves
 }
 
 // leavesOnly: every path from b leaves the loop body without reaching the header again.
 func leavesOnly(b *ssa.BasicBlock, body map[*ssa.BasicBlock]bool) bool {
-	seen := map[*ssa.BasicBlock]bool{}
-	q := []*ssa.BasicBlock{b}
-	// the header is the block in body dominating all
-	for len(q) > 0 {
-		x := q[0]
-		q = q[1:]
-		if seen[x] || !body[x] {
-			continue
+	back := false
+	explore(entryNodesVia(b), func(n walkNode) bool {
+		if !body[n.b] {
+			return false
 		}
-		seen[x] = true
-		for _, s := range x.Succs {
-			if body[s] && loopBody(s) != nil && sameLoop(s, body) {
-				return false // back to the header
-			}
-			q = append(q, s)
+		if n.b != b && loopBody(n.b) != nil && sameLoop(n.b, body) {
+			back = true // back to the header
+			return false
 		}
-	}
-	return true
+		return true
+	})
+	return !back
 }
 
 func sameLoop(h *ssa.BasicBlock, body map[*ssa.BasicBlock]bool) bool {
